@@ -2,6 +2,7 @@ package chk
 
 import (
 	"fmt"
+	"go/token"
 
 	"golang.org/x/tools/go/ssa"
 )
@@ -141,6 +142,47 @@ func ruleForceDurationScan(p *Prog, l *Ledger, tier string) {
 			l.Prove(rule, name, keyC, p.Pos(cut.Pos()), fmt.Sprintf("the not-found value(s) %v of the cut index are negative: no real index is mistaken for them", consts))
 		}
 	}
+	// (c2) a test of the index against a constant on the way to the cut must not turn away a real index:
+	// every k >= 0 can be the position of the first cue starting at or after d (0 when all of them do)
+	for _, dc := range dominatingConds(cut.Block()) {
+		bo, ok := dc.cond.(*ssa.BinOp)
+		if !ok {
+			continue
+		}
+		op := bo.Op
+		c, isC := constInt(bo.Y)
+		if !isC || bo.X != k {
+			if c2, ok2 := constInt(bo.X); ok2 && bo.Y == k {
+				c, op = c2, flipCompare(bo.Op)
+			} else {
+				continue
+			}
+		}
+		if !dc.taken {
+			op = negateCompare(op)
+		}
+		// the cut is reached only when k op c
+		var turnedAway string
+		switch op {
+		case token.NEQ:
+			if c >= 0 {
+				turnedAway = fmt.Sprintf("%d", c)
+			}
+		case token.GTR:
+			if c >= 0 {
+				turnedAway = fmt.Sprintf("0..%d", c)
+			}
+		case token.GEQ:
+			if c >= 1 {
+				turnedAway = fmt.Sprintf("0..%d", c-1)
+			}
+		case token.EQL, token.LSS, token.LEQ:
+			turnedAway = "every index above " + fmt.Sprint(c)
+		}
+		if turnedAway != "" {
+			l.Fail(rule, name, rule+"|index-guard", p.Pos(cut.Pos()), fmt.Sprintf("%s: the cut s.Items = s.Items[:k] is only reached when k %s %d, which turns away the real index value(s) %s: when the first cue starting at or after d sits there (index 0: every cue starts at or after d) nothing is removed and the list still lasts longer than d", name, op, c, turnedAway))
+		}
+	}
 	// (d)
 	keyD := rule + "|filler-after-cut"
 	after := reachableFrom(cutSite.Block())
@@ -243,4 +285,14 @@ func (p *Prog) siteIn(fn *ssa.Function, ins ssa.Instruction) ssa.Instruction {
 		}
 	}
 	return site
+}
+
+// flipCompare: the comparison with its operands exchanged (c op k  ⇔  k flip(op) c).
+func flipCompare(op token.Token) token.Token {
+	return map[token.Token]token.Token{token.LSS: token.GTR, token.LEQ: token.GEQ, token.GTR: token.LSS, token.GEQ: token.LEQ, token.EQL: token.EQL, token.NEQ: token.NEQ}[op]
+}
+
+// negateCompare: the comparison that holds exactly when op does not.
+func negateCompare(op token.Token) token.Token {
+	return map[token.Token]token.Token{token.LSS: token.GEQ, token.LEQ: token.GTR, token.GTR: token.LEQ, token.GEQ: token.LSS, token.EQL: token.NEQ, token.NEQ: token.EQL}[op]
 }
